@@ -1495,6 +1495,20 @@ pub fn verif_compile_sources_to_mir_before_rewrites(
 }
 
 #[cfg(samlang_verif)]
+pub fn verif_compile_sources_to_mir_before_dedup(
+  heap: &mut Heap,
+  sources: &HashMap<ModuleReference, source::Module<Arc<type_::Type>>>,
+) -> mir::Sources {
+  let sources = compile_sources_with_generics_preserved(heap, sources);
+  mir_generics_specialization::perform_generics_specialization(heap, sources)
+}
+
+#[cfg(samlang_verif)]
+pub fn verif_type_deduplication(sources: mir::Sources) -> mir::Sources {
+  mir_type_deduplication::deduplicate(sources)
+}
+
+#[cfg(samlang_verif)]
 pub fn verif_constant_param_elimination(sources: mir::Sources) -> mir::Sources {
   mir_constant_param_elimination::rewrite_sources(sources)
 }
